@@ -319,17 +319,25 @@ def async_layer(ctx, layer: str, rng: random.Random, sizes: list[int], slots: li
             ctx.count("order:cancel-iteration-before")
     if "wakeup-iter" in slots:
         ctx.count("order:cancel-after-wakeup")
+    model = sockmon.reduce_stream(data) if layer != "tls" else None
     if state.get("recv_error"):
-        return f"byte stream not conserved: a later receive failed with {state['recv_error']}", lost
+        # TLS: dropped ciphertext can only surface as a record error; attributable iff deliveries were dropped
+        return f"byte stream not conserved: a later receive failed with {state['recv_error']}", (lost if layer == "tls" else [])
     if state.get("lines") is not None:
         if pkts != state["lines"]:
             missing = [x for x in state["lines"] if x not in pkts]
-            return f"packets delivered differ from packets sent: {len(pkts)}/{len(state['lines'])} delivered, first missing {missing[:2]}, extra {[x for x in pkts if x not in state['lines']][:2]}", lost
+            # exactly what the known mechanism predicts? (the consumer saw the stream minus the dropped deliveries)
+            exact = False
+            if lost and model is not None:
+                mpk = [x.decode("ascii", "replace") for x in model.split(b"\n")[:-1]]
+                exact = pkts == mpk
+            return f"packets delivered differ from packets sent: {len(pkts)}/{len(state['lines'])} delivered, first missing {missing[:2]}, extra {[x for x in pkts if x not in state['lines']][:2]}", (lost if exact else [])
     else:
         if bytes(got) != data:
             # first divergence
             i = next((j for j in range(min(len(got), len(data))) if got[j] != data[j]), min(len(got), len(data)))
-            return f"byte stream not conserved: received {len(got)}/{len(data)} bytes, first divergence at offset {i}" + (f" (final drain: {state['drain_error']})" if state.get("drain_error") else ""), lost
+            exact = bool(lost) and ((model is not None and bytes(got) == model) or (layer == "tls" and data.startswith(bytes(got)) and bool(state.get("drain_error"))))
+            return f"byte stream not conserved: received {len(got)}/{len(data)} bytes, first divergence at offset {i}" + (f" (final drain: {state['drain_error']})" if state.get("drain_error") else ""), (lost if exact else [])
     ctx.count("bytes_conserved_runs")
     return None, lost
 
